@@ -1,5 +1,6 @@
 //! C09 — Fq2/Fq6/Fq12 are the stated tower; Frobenius and the sparse products are exact.
 use crate::alpha;
+use num_bigint::BigUint;
 use crate::conv::*;
 use crate::infra::{unrank, Ctx, Fail};
 use crate::refmodel::*;
@@ -34,6 +35,93 @@ fn fq_small_alphabet(ctx: &Ctx, n_seeded: usize) -> Vec<Q1> {
 /// k mod 12 (and mod 6, mod 2 where it matters) differs from the residue of the truncated value
 fn wide_powers() -> Vec<usize> {
     vec![256 + 1, 65536, 65536 + 1, (1usize << 31) + 1, 1usize << 32, (1usize << 32) + 1, (1usize << 32) + 5, (1usize << 63) + 7, usize::MAX - 1, usize::MAX]
+}
+
+/// Operands CONSTRUCTED so that one coordinate of the RESULT has a prescribed in-memory (Montgomery) form: q-1, q-2, values
+/// that share the top limb(s) of q, 2^380, 1 ... A hand-written reduction, a quotient estimate taken from the top limb, or a
+/// lazily reduced accumulator goes wrong exactly where the value to be reduced sits next to a multiple of q.  For an output
+/// coordinate j and a free input coordinate i the coordinate is a polynomial of degree <= 2 in the free value t: three
+/// reference evaluations give its coefficients, t is solved for (a square root where needed), the reference confirms the
+/// construction, and then the library's product / square on these operands is compared with the reference in all coordinates.
+fn prescribed_outputs<S, R>(ctx: &Ctx, name: &'static str, ncoef: usize, from_coeffs: fn(&[Q1]) -> R, coeffs: fn(&R) -> Vec<Q1>, to_s: fn(&R) -> S, of_s: fn(&S) -> R, seed_a: &[Q1], seed_b: &[Q1])
+where
+    S: Field + Sync + Send,
+    R: RF + Debug,
+{
+    let q = q();
+    let rr = alpha::pow2(384) % q;
+    let rinv = Q1::new(rr).inv().unwrap();
+    let top = (q >> 320) << 320;
+    let top2 = (q >> 256) << 256;
+    let raws: Vec<BigUint> = vec![q - 1u32, q - 2u32, q - alpha::pow2(64), top.clone(), &top + 1u32, &top - 1u32, top2.clone(), alpha::pow2(380), BigUint::from(1u32), (q - 1u32) >> 1];
+    let targets: Vec<Q1> = raws.iter().map(|x| Q1::new(x % q).mul(&rinv)).collect();
+    let two_inv = Q1::from_u64(2).inv().unwrap();
+    // (op, output coordinate, target index)
+    let rad = [2u64, ncoef as u64, targets.len() as u64];
+    ctx.sweep(
+        &format!("{}.prescribed_output_coordinates", name),
+        crate::infra::space(&rad),
+        |i| {
+            let d = unrank(i, &rad);
+            json!({"op": (["mul", "square"][d[0]]), "output_coordinate": d[1], "montgomery_form_of_that_coordinate": hex(&raws[d[2]])})
+        },
+        |i| {
+            let d = unrank(i, &rad);
+            let (op, j, target) = (d[0], d[1], &targets[d[2]]);
+            let apply = |a: &R, b: &R| -> R { if op == 0 { a.mul(b) } else { a.sq() } };
+            let b = from_coeffs(seed_b);
+            // try free input coordinates until the equation is solvable
+            for free in (0..ncoef).map(|k| (j + k) % ncoef) {
+                let with_t = |t: &Q1| -> R {
+                    let mut c = seed_a.to_vec();
+                    c[free] = t.clone();
+                    from_coeffs(&c)
+                };
+                let f = |t: &Q1| -> Q1 { coeffs(&apply(&with_t(t), &b))[j].clone() };
+                let (f0, f1, f2) = (f(&Q1::zero()), f(&Q1::one()), f(&Q1::from_u64(2)));
+                let a2 = f2.sub(&f1.dbl()).add(&f0).mul(&two_inv);
+                let b1 = f1.sub(&f0).sub(&a2);
+                let c0 = f0.sub(target);
+                let t = if a2.is_zero() {
+                    match b1.inv() {
+                        Some(bi) => c0.neg().mul(&bi),
+                        None => continue,
+                    }
+                } else {
+                    let disc = b1.sq().sub(&Q1::from_u64(4).mul(&a2).mul(&c0));
+                    match disc.sqrt() {
+                        Some(sd) => sd.sub(&b1).mul(&a2.dbl().inv().unwrap()),
+                        None => continue,
+                    }
+                };
+                let a = with_t(&t);
+                let want = apply(&a, &b);
+                if coeffs(&want)[j] != *target {
+                    return Err(Fail::new(format!("harness: construction of a prescribed output coordinate failed ({})", name)));
+                }
+                let (sa, sb) = (to_s(&a), to_s(&b));
+                let mut got = sa;
+                if op == 0 {
+                    got.mul_assign(&sb);
+                } else {
+                    got.square();
+                }
+                if of_s(&got) != want {
+                    return Err(Fail::new(format!("{} {} differs from the quotient ring on operands whose result has coordinate {} = (a prescribed value next to a multiple of q in Montgomery form)", name, ["mul_assign", "square"][op], j)));
+                }
+                // the commuted product as well
+                if op == 0 {
+                    let mut g2 = sb;
+                    g2.mul_assign(&sa);
+                    if of_s(&g2) != want {
+                        return Err(Fail::new(format!("{} mul_assign (operands swapped) differs from the quotient ring on operands with a prescribed result coordinate", name)));
+                    }
+                }
+                return Ok("prescribed result coordinate");
+            }
+            Ok("")
+        },
+    );
 }
 
 /// generic ring sweep: unary ops + frobenius on all elements, binary ops on a sub-alphabet
@@ -320,6 +408,17 @@ pub fn run(ctx: &Ctx) -> (&'static str, &'static str) {
     }
     let ks12: Vec<usize> = ctx.tier.pick((0..14).chain(1000005..1000007).chain(wide_powers()).collect::<Vec<_>>(), (0..26).chain(1000000..1000012).chain(wide_powers()).collect());
     ring_checks::<Fq12, Q12>(ctx, "Fq12", &e12, &pairs12, q12_of, frob12, &ks12, show12);
+    {
+        fn q2_from(v: &[Q1]) -> Q2 {
+            Q2::new(v.to_vec())
+        }
+        fn q2_co(x: &Q2) -> Vec<Q1> {
+            vec![x.c(0).clone(), x.c(1).clone()]
+        }
+        prescribed_outputs::<Fq2, Q2>(ctx, "Fq2", 2, q2_from, q2_co, fq2_of, q2_of, &seeded[..2], &seeded_b[..2]);
+        prescribed_outputs::<Fq6, Q6>(ctx, "Fq6", 6, q6_from_coeffs, q6_coeffs, fq6_of, q6_of, &seeded[..6], &seeded_b[..6]);
+        prescribed_outputs::<Fq12, Q12>(ctx, "Fq12", 12, q12_from_coeffs, q12_coeffs, fq12_of, q12_of, &seeded[..12], &seeded_b[..12]);
+    }
 
     // conjugate
     ctx.sweep(
